@@ -33,7 +33,7 @@ class LinkNative(Contract):
     symbolic = False
     has_native = True
     props = ("C20",)
-    bounded_scope = "4 EM receiver/transmitter class pairs + tipper receivers/base stations + DC potential/current electrodes; link from either side; edit a shared parameter through either side with and without having read the partner first; re-link to a second partner; re-open and fetch one side only; plain copy; linking by a metadata document with identifiers as text (plain and braced); tipper copies from either side inside the same workspace; airborne parameters switched between a number and a data channel through alternating sides; DC pairs re-linked elsewhere from the other side and linked again"
+    bounded_scope = "large-loop ground TEM/FEM pairs (two loops, ten receivers each; copy of either side, masked copy into another workspace, shared-parameter edit; in the creating session and after a re-open) + 4 EM receiver/transmitter class pairs + tipper receivers/base stations + DC potential/current electrodes; link from either side; edit a shared parameter through either side with and without having read the partner first; re-link to a second partner; re-open and fetch one side only; plain copy; linking by a metadata document with identifiers as text (plain and braced); tipper copies from either side inside the same workspace; airborne parameters switched between a number and a data channel through alternating sides; DC pairs re-linked elsewhere from the other side and linked again"
 
     def native_cases(self, tier, rng):
         for rx, tx in EM_PAIRS:
@@ -50,6 +50,11 @@ class LinkNative(Contract):
                 yield {"family": "dc", "direction": direction, "scenario": scenario}
         for scenario in ("basic", "reopen", "copy-receivers", "copy-base-stations"):
             yield {"family": "tipper", "scenario": scenario}
+        # large-loop ground surveys: two loops, ten receivers each, tied by their "Transmitter ID" data
+        for kind in ("TEM", "FEM"):
+            for reopen in (False, True):
+                for scenario in ("copy-receivers", "copy-transmitters", "masked-copy-other-workspace", "link-and-edit"):
+                    yield {"family": "largeloop", "kind": kind, "reopen": reopen, "scenario": scenario}
 
     def native_check(self, case):
         d = tempfile.mkdtemp()
@@ -59,6 +64,8 @@ class LinkNative(Contract):
                 return self._em(case, path)
             if case["family"] == "dc":
                 return self._dc(case, path)
+            if case["family"] == "largeloop":
+                return self._largeloop(case, path)
             return self._tipper(case, path)
         finally:
             shutil.rmtree(d, ignore_errors=True)
@@ -215,6 +222,93 @@ class LinkNative(Contract):
                 bad = check(ws.get_entity(uids[0])[0], ws.get_entity(uids[1])[0], "after re-opening")
                 if bad:
                     return f"{bad} ({case})"
+        return None
+
+    def _largeloop(self, case, path):
+        from geoh5py import objects
+        from geoh5py.workspace import Workspace
+
+        RX = getattr(objects, f"LargeLoopGround{case['kind']}Receivers")
+        TX = getattr(objects, f"LargeLoopGround{case['kind']}Transmitters")
+        with Workspace.create(path) as ws:
+            verts, loops, ids, cells = [], [], [], []
+            count = 0
+            for ind in range(2):
+                off = 500.0 * ind
+                verts.append(np.c_[np.linspace(-1000, 1000, 10), np.zeros(10) + off, np.zeros(10)])
+                ids.append(np.ones(10) * (ind + 1))
+                corners = np.array([[-100, -100], [-100, 100], [100, 100], [100, -100]])
+                loops.append(np.c_[corners[:, 0], corners[:, 1] + off, np.zeros(4)])
+                cells += [np.c_[np.arange(3) + count, np.arange(3) + count + 1], np.c_[count + 3, count]]
+                count += 4
+            rx = RX.create(ws, vertices=np.vstack(verts), name="rx")
+            tx = TX.create(ws, vertices=np.vstack(loops), cells=np.vstack(cells), name="tx")
+            tx.tx_id_property = tx.parts + 1
+            rx.tx_id_property = np.hstack(ids)
+            rx.transmitters = tx
+            loop_verts = np.vstack(loops)
+        mode = "r+"
+        ws = Workspace(path, mode=mode) if case["reopen"] else Workspace.create(path.replace("s.geoh5", "same.geoh5"))
+        other = None
+        try:
+            if not case["reopen"]:
+                # same session: build again in this workspace (nothing read back from a file)
+                rx = RX.create(ws, vertices=np.vstack(verts), name="rx")
+                tx = TX.create(ws, vertices=loop_verts, cells=np.vstack(cells), name="tx")
+                tx.tx_id_property = tx.parts + 1
+                rx.tx_id_property = np.hstack(ids)
+                rx.transmitters = tx
+            else:
+                rx, tx = ws.get_entity("rx")[0], ws.get_entity("tx")[0]
+            if rx.transmitters is not tx or tx.receivers is not rx:
+                return f"large-loop partners do not resolve each other ({case})"
+
+            def pair_ok(new_rx, new_tx, n_rx, n_tx, what):
+                if new_rx is None or new_tx is None:
+                    return f"{what}: the partner was not copied (receivers {new_rx}, transmitters {new_tx})"
+                if {new_rx.uid, new_tx.uid} & {rx.uid, tx.uid} and new_rx.workspace is rx.workspace:
+                    return f"{what}: copies re-use the originals' identifiers"
+                for nm, ent in (("receivers", new_rx), ("transmitters", new_tx)):
+                    md = ent.metadata["EM Dataset"]
+                    if md.get("Receivers") != new_rx.uid or md.get("Transmitters") != new_tx.uid:
+                        return f"{what}: the copied {nm} record Receivers={md.get('Receivers')} Transmitters={md.get('Transmitters')}, expected the two copies {new_rx.uid} / {new_tx.uid}"
+                if new_rx.transmitters is not new_tx or new_tx.receivers is not new_rx:
+                    return f"{what}: the two copies do not resolve each other"
+                if new_rx.n_vertices != n_rx or new_tx.n_vertices != n_tx:
+                    return f"{what}: {new_rx.n_vertices} receivers / {new_tx.n_vertices} loop vertices copied, expected {n_rx} / {n_tx}"
+                if rx.metadata["EM Dataset"].get("Transmitters") != tx.uid or tx.metadata["EM Dataset"].get("Receivers") != rx.uid:
+                    return f"{what}: the original pair was re-linked by the copy"
+                return None
+
+            bad = None
+            if case["scenario"] == "copy-receivers":
+                new_rx = rx.copy()
+                bad = pair_ok(new_rx, new_rx.transmitters if new_rx is not None else None, 20, 8, "rx.copy()")
+            elif case["scenario"] == "copy-transmitters":
+                new_tx = tx.copy()
+                bad = pair_ok(new_tx.receivers if new_tx is not None else None, new_tx, 20, 8, "tx.copy()")
+            elif case["scenario"] == "masked-copy-other-workspace":
+                other = Workspace.create(path.replace("s.geoh5", "other.geoh5"))
+                mask = np.zeros(20, dtype=bool)
+                mask[10:] = True
+                new_rx = rx.copy(parent=other, mask=mask)
+                new_tx = new_rx.transmitters if new_rx is not None else None
+                bad = pair_ok(new_rx, new_tx, 10, 4, "masked rx.copy() into another workspace")
+                if not bad and not np.allclose(new_tx.vertices, loop_verts[4:]):
+                    bad = "masked copy: the copied loop is not the loop the copied receivers refer to"
+            else:
+                tx.channels = [1.0, 2.0, 3.0]
+                if list(rx.channels) != [1.0, 2.0, 3.0]:
+                    bad = f"channels edited through the loops read {rx.channels} on the receivers"
+            if bad:
+                return f"{bad} ({case})"
+        finally:
+            for w in (ws, other):
+                try:
+                    if w is not None:
+                        w.close()
+                except Exception:
+                    pass
         return None
 
     def _tipper(self, case, path):
@@ -563,3 +657,129 @@ class PotentialLinksCurrent(Contract):
 
 
 CONTRACTS = CONTRACTS + [AirborneSetMetadata, ElectrodeMetadataStub, PotentialLinksCurrent]
+
+
+class IndependentSurveysFrame(Contract):
+    """Frame condition across surveys: building, linking, editing or copying one survey pair leaves
+    every node of an unrelated, already stored pair of the same family byte-identical (attributes,
+    metadata, data sets, types) -- class-level defaults are not a channel between entities."""
+    target = "geoh5py/objects/surveys/electromagnetics/base.py::BaseEMSurvey.metadata.fget"
+    variant = "independent-surveys"
+    symbolic = False
+    has_native = True
+    props = ("C09", "C20")
+    bounded_scope = "families {airborne TEM, airborne FEM, moving-loop TEM, MT receivers alone, tipper, DC/IP}; a first pair is created, linked, given channels and stored; a second one is then created / linked / edited / copied {in the same session, after a re-open}; per-node digests of every node belonging to the first pair are compared, and the first pair's in-memory description (exhaustive over the listed combinations)"
+
+    FAMILIES = ("AirborneTEM", "AirborneFEM", "MovingLoopGroundTEM", "MT", "tipper", "dcip")
+
+    def native_cases(self, tier, rng):
+        for fam in self.FAMILIES:
+            for reopen in (False, True):
+                for second in ("create-only", "create-link-edit", "copy-of-second"):
+                    yield {"family": fam, "reopen": reopen, "second": second}
+
+    @staticmethod
+    def _make(ws, fam, tag, link=True, edit=True, off=0.0):
+        from geoh5py import objects
+
+        if fam == "tipper":
+            rx = objects.TipperReceivers.create(ws, vertices=_verts(off=off), name="rx" + tag)
+            if link:
+                bs = objects.TipperBaseStations.create(ws, vertices=_verts(off=off + 3.0), name="bs" + tag)
+                rx.base_stations = bs
+            if edit:
+                rx.channels = [30.0 + off, 45.0]
+            return rx
+        if fam == "dcip":
+            tx = objects.CurrentElectrode.create(ws, vertices=_verts(off=off), parts=[0, 0, 1, 1], name="tx" + tag)
+            tx.add_default_ab_cell_id()
+            rx = objects.PotentialElectrode.create(ws, vertices=_verts(off=off + 2.0), cells=np.array([[0, 1], [2, 3]], dtype="uint32"), name="rx" + tag)
+            rx.ab_cell_id = np.array([1, 2], dtype="int32")
+            if link:
+                rx.current_electrodes = tx
+            return rx
+        if fam == "MT":
+            rx = objects.MTReceivers.create(ws, vertices=_verts(off=off), name="rx" + tag)
+            if edit:
+                rx.channels = [5.0 + off, 10.0]
+            return rx
+        rx = getattr(objects, fam + "Receivers").create(ws, vertices=_verts(off=off), name="rx" + tag)
+        if link:
+            tx = getattr(objects, fam + "Transmitters").create(ws, vertices=_verts(off=off + 1.0), name="tx" + tag)
+            rx.transmitters = tx
+        if edit:
+            rx.channels = [1.0 + off, 2.0]
+        return rx
+
+    @staticmethod
+    def _digests(path, uids):
+        """canonical per-node description (attributes, own datasets, member names) of the flat nodes with these identifiers"""
+        import h5py
+
+        out = {}
+
+        def describe(node):
+            d = {"attrs": {k: repr(np.asarray(node.attrs[k]).tolist()) for k in sorted(node.attrs)}}
+            if isinstance(node, h5py.Dataset):
+                d["data"] = repr(np.asarray(node[()]).tolist())
+            else:
+                d["members"] = sorted(node.keys())
+                for k in node:
+                    if isinstance(node[k], h5py.Dataset):
+                        d["ds:" + k] = repr(np.asarray(node[k][()]).tolist())
+                    elif k == "PropertyGroups":
+                        d["pg"] = {g: {a: repr(np.asarray(node[k][g].attrs[a]).tolist()) for a in sorted(node[k][g].attrs)} for g in node[k]}
+            return d
+
+        with h5py.File(path, "r") as f:
+            proj = f[list(f)[0]]
+            flats = [("Objects", proj["Objects"]), ("Data", proj["Data"]), ("Groups", proj["Groups"])] + [("Types/" + t, proj["Types"][t]) for t in proj["Types"]]
+            for label, cont in flats:
+                for key in cont:
+                    if key.strip("{}") in uids:
+                        out[f"{label}/{key}"] = describe(cont[key])
+        return out
+
+    def native_check(self, case):
+        from geoh5py.workspace import Workspace
+
+        file_digests = self._digests
+        d = tempfile.mkdtemp()
+        try:
+            path = os.path.join(d, "f.geoh5")
+            ws = Workspace.create(path)
+            first = self._make(ws, case["family"], "1")
+            mine = {str(e.uid) for e in ws.objects if e.name.endswith("1")}
+            mine |= {str(c.uid) for e in ws.objects if e.name.endswith("1") for c in e.children if hasattr(c, "uid")}
+            mine |= {str(getattr(c, "entity_type", e.entity_type).uid) for e in ws.objects if e.name.endswith("1") for c in [e] + [k for k in e.children if hasattr(k, "entity_type")]}
+            described = {e.name: repr(e.metadata) for e in ws.objects if e.name.endswith("1")}
+            ws.close()
+            before = file_digests(path, mine)
+            if not before:
+                return f"harness: no node of the first survey found in the file ({case})"
+            ws = Workspace(path, mode="r+")
+            try:
+                if not case["reopen"]:
+                    pass  # same process either way; "reopen" decides whether the first pair is loaded while the second is built
+                else:
+                    _ = [e.metadata for e in ws.objects]
+                second = self._make(ws, case["family"], "2", link=case["second"] != "create-only", edit=case["second"] != "create-only", off=50.0)
+                if case["second"] == "copy-of-second":
+                    second.copy()
+                now = {e.name: repr(e.metadata) for e in ws.objects if e.name in described}
+            finally:
+                ws.close()
+            after = file_digests(path, mine)
+            changed = sorted(f"{k}: {[m for m in before[k] if after.get(k, {}).get(m) != before[k][m]]}" for k in before if after.get(k) != before[k]) + sorted(set(after) - set(before))
+            # types are shared by class: a second survey of the same class may legitimately touch nothing of them either
+            if changed:
+                return f"building a second, unrelated survey changed nodes of the first one in the file: {changed[:3]} ({case})"
+            for name, text in described.items():
+                if case["reopen"] and now.get(name) != text:
+                    return f"building a second, unrelated survey changed the description of '{name}': {now.get(name)} (was {text}) ({case})"
+            return None
+        finally:
+            shutil.rmtree(d, ignore_errors=True)
+
+
+CONTRACTS = CONTRACTS + [IndependentSurveysFrame]
